@@ -592,13 +592,13 @@ func finish(res *propResult, spec *PropSpec, tier string, seed int, start time.T
 			}
 		}
 		cov["checker_self_test"] = map[string]interface{}{
-			"what":             "every recorded breaking edit (variants/, seeded/) applied to a scratch copy of the current tree must be reported by this property's rules; every behaviour-preserving edit (variants-benign/, benign/) must not; validates the checker, never changes the verdict on /repo",
-			"breaking_edits":   nb,
-			"detected":         nd,
-			"benign_edits":     nben,
-			"benign_silent":    nsil,
-			"stale":            ns,
-			"cases":            res.SelfTest,
+			"what":           "every recorded breaking edit (variants/, seeded/) applied to a scratch copy of the current tree must be reported by this property's rules; every behaviour-preserving edit (variants-benign/, benign/) must not; validates the checker, never changes the verdict on /repo",
+			"breaking_edits": nb,
+			"detected":       nd,
+			"benign_edits":   nben,
+			"benign_silent":  nsil,
+			"stale":          ns,
+			"cases":          res.SelfTest,
 		}
 		notes = append(notes, res.SelfNotes...)
 		cov["notes"] = notes
